@@ -13,7 +13,7 @@ pub struct GraphColoredVertices { _p: u8 }
 pub struct GraphVertices { _p: u8 }
 pub struct GraphColors { _p: u8 }
 pub struct BooleanNetwork { _p: u8 }
-#[derive(Clone, Copy)]
+#[derive(Clone, Copy, PartialEq, Eq, Hash)]
 pub struct VariableId { _p: usize }
 pub struct VariableIdIterator { _p: usize }
 pub struct VariableIdRevIterator { _p: usize }
